@@ -134,6 +134,17 @@ theorem generic_model_contains_fast_model (F : FloatOps) (src : Img8) (w h cellW
       · simp only [hf, scaleG_generic]
         rfl
 
+/-- `fullCell` on two pixels, in terms of what `toRGB` returns for them: a space with default foreground; background
+    default when the mean alpha is below 50, else the channel-wise mean. -/
+theorem fullCell_eq (top bot : C16) :
+    fullCell top bot =
+      ⟨0x20, 0, if ((toRGB bot).a + (toRGB top).a) / 2 % 256 < 50 then 0
+                else rgbColor (((toRGB bot).r + (toRGB top).r) / 2 % 256) (((toRGB bot).g + (toRGB top).g) / 2 % 256)
+                              (((toRGB bot).b + (toRGB top).b) / 2 % 256)⟩ := by
+  have hc : fullBlockCmp = (.lt, 50) := by decide
+  simp only [fullCell, fullColor, averageColor, hc, evalCmp, List.cons_append, List.nil_append, List.map_cons,
+    List.map_nil, List.sum_cons, List.sum_nil, List.length_cons, List.length_nil, Nat.add_zero, u8, decide_eq_true_eq]
+
 /-! ## The whole pipeline for a source of any concrete type -/
 
 open VaxisModel.Lemmas.ScalerGeneric in
@@ -245,6 +256,57 @@ theorem half_pipeline_any_opaque_source (F : FloatOps) (src : ImgG) (o : Bool) (
     have n1 : ¬ (shown (src.pix (nnIndex e.1 src.w v.w) (nnIndex (2 * e.2.1) src.h v.h))).a < 50 := by rw [aT]; decide
     simp [n1]
     rfl
+
+open VaxisModel.Lemmas.ScalerGeneric in
+/-- **`FullBlockImage.Resize` on a source of any concrete type**: every cell is a space with default foreground whose
+    background is the default colour exactly when the mean of the two alphas `toRGB` returns for the seen source pixels
+    under it is below 50, and otherwise their channel-wise mean; in a last odd row the upper pixel alone (F220). -/
+theorem full_pipeline_any_source (F : FloatOps) (src : ImgG) (o : Bool) (w h : Nat) (hw : 0 < src.w) (hh : 0 < src.h)
+    (v : Img) (hr : resizeImgG F src o w h fullBlockGeom.1 fullBlockGeom.2 = .ok v) :
+    resizeDims F src.w src.h w h fullBlockGeom.1 fullBlockGeom.2 = .ok (v.w, v.h) ∧
+    ∃ seen : C16 → C16, (seen = id ∨ seen = fun c => conv .rgba (storeSrc c)) ∧
+      ∀ e ∈ fullCells v, e.1 < v.w ∧ e.2.1 < ceilDiv v.h 2 ∧
+        let T := toRGB (seen (src.pix (nnIndex e.1 src.w v.w) (nnIndex (2 * e.2.1) src.h v.h)))
+        let B := if 2 * e.2.1 + 1 < v.h then toRGB (seen (src.pix (nnIndex e.1 src.w v.w) (nnIndex (2 * e.2.1 + 1) src.h v.h)))
+                 else T
+        e.2.2 = ⟨0x20, 0, if (B.a + T.a) / 2 % 256 < 50 then 0
+                          else rgbColor ((B.r + T.r) / 2 % 256) ((B.g + T.g) / 2 % 256) ((B.b + T.b) / 2 % 256)⟩ := by
+  obtain ⟨hd, hcase⟩ := resizeImgG_cases genCfg F src o w h _ _ v hr
+  refine ⟨hd, ?_⟩
+  have key : ∃ seen : C16 → C16, (seen = id ∨ seen = fun c => conv .rgba (storeSrc c)) ∧
+      ∀ x y, x < v.w → y < v.h → v.at x y = seen (src.pix (nnIndex x src.w v.w) (nnIndex y src.h v.h)) := by
+    rcases hcase with he | he
+    · refine ⟨id, Or.inl rfl, fun x y hx hy => ?_⟩
+      have hvw : v.w = src.w := by rw [he]; rfl
+      have hvh : v.h = src.h := by rw [he]; rfl
+      rw [hvw, hvh, nnIndex_same x src.w hw, nnIndex_same y src.h hh]
+      rw [he]
+      exact asImg_at src x y (hvw ▸ hx) (hvh ▸ hy)
+    · refine ⟨fun c => conv .rgba (storeSrc c), Or.inr rfl, fun x y hx hy => ?_⟩
+      have := scaleG_view_at (!o) src v.w v.h x y hx hy
+      rw [← he] at this
+      exact this
+  obtain ⟨seen, hseen, hat⟩ := key
+  refine ⟨seen, hseen, ?_⟩
+  intro e he
+  obtain ⟨h1, h2, h3, _⟩ := VaxisModel.Lemmas.ImageTerm.blockCellsWith_mem _ fullCell v e he
+  obtain ⟨hrow, _⟩ := VaxisModel.Lemmas.ImageTerm.blockHeight_rows v.h e.2.1 h2
+  rw [VaxisModel.Lemmas.ImageFit.blockHeight_eq] at h2
+  rw [full_block_bottom_shape] at h3
+  refine ⟨h1, h2, ?_⟩
+  intro T B
+  have hT : toRGB (v.at e.1 (2 * e.2.1)) = T := by rw [hat _ _ h1 hrow]
+  by_cases hbot : 2 * e.2.1 + 1 < v.h
+  · have hl : lowerPx .topIfMissing v e.1 (2 * e.2.1) = v.at e.1 (2 * e.2.1 + 1) := by simp [lowerPx, hbot]
+    have hB : toRGB (v.at e.1 (2 * e.2.1 + 1)) = B := by
+      show _ = if 2 * e.2.1 + 1 < v.h then _ else _
+      rw [if_pos hbot, hat _ _ h1 hbot]
+    rw [h3, hl, fullCell_eq, hT, hB]
+  · have hl : lowerPx .topIfMissing v e.1 (2 * e.2.1) = v.at e.1 (2 * e.2.1) := by simp [lowerPx, hbot]
+    have hB : T = B := by
+      show _ = if 2 * e.2.1 + 1 < v.h then _ else _
+      rw [if_neg hbot]
+    rw [h3, hl, fullCell_eq, hT, ← hB]
 
 /-- Non-vacuity: `color.YCbCr` pixels (mid grey, saturated extremes that clamp) meet the opacity hypothesis. -/
 example :
@@ -367,17 +429,6 @@ theorem half_pipeline_translucent (F : FloatOps) (src : Img8) (w h : Nat) (hw : 
         rw [hz]; decide
     · rw [h3, halfCell]
       exact VaxisModel.Props.C20.transparent_default _ _
-
-/-- `fullCell` on two pixels, in terms of what `toRGB` returns for them: a space with default foreground; background
-    default when the mean alpha is below 50, else the channel-wise mean. -/
-theorem fullCell_eq (top bot : C16) :
-    fullCell top bot =
-      ⟨0x20, 0, if ((toRGB bot).a + (toRGB top).a) / 2 % 256 < 50 then 0
-                else rgbColor (((toRGB bot).r + (toRGB top).r) / 2 % 256) (((toRGB bot).g + (toRGB top).g) / 2 % 256)
-                              (((toRGB bot).b + (toRGB top).b) / 2 % 256)⟩ := by
-  have hc : fullBlockCmp = (.lt, 50) := by decide
-  simp only [fullCell, fullColor, averageColor, hc, evalCmp, List.cons_append, List.nil_append, List.map_cons,
-    List.map_nil, List.sum_cons, List.sum_nil, List.length_cons, List.length_nil, Nat.add_zero, u8, decide_eq_true_eq]
 
 /-- **The colours of every full-block cell, translucent pixels included, through the whole pipeline** (any stored
     `*image.NRGBA`, any float step, scaled or not): a space with default foreground whose background is the default
